@@ -105,6 +105,7 @@ World::World(const Plan& p)
     plife = static_cast<uint64_t>(plan.cfgGet("plife", 0));
     clockJumpSeed = static_cast<uint64_t>(plan.cfgGet("clockjump", 0));
     shareInput = plan.cfgGet("shareinput", 0) != 0;
+    keepAll = plan.cfgGet("keepall", 0) != 0;
     cmpFeedback = plan.cfgGet("cmpfb", 0) != 0;
     if (plan.cfgGet("lit", 0))
         fault("plan-field-set-to-a-source-literal");
@@ -915,6 +916,16 @@ void World::deliver(InFlight& f)
             if (!lib::isNull(out[i]) && kept.size() < 400)
                 kept.push_back(Kept{out[i], lib::digest(out[i])});
         if ((res.deliveries & 3) == 0)
+            checkKept(false);
+    }
+    else if (keepAll)
+    {
+        // (C19, instances engine: every family keeps what the decoder returned and looks at it again later - after chunks
+        // that ran on threads which have ended since)
+        for (size_t i = 0; i < out.size(); ++i)
+            if (!lib::isNull(out[i]) && kept.size() < 200)
+                kept.push_back(Kept{out[i], lib::digest(out[i])});
+        if ((res.deliveries & 7) == 0)
             checkKept(false);
     }
     // ---------------- C03: views of valid packets
